@@ -37,6 +37,8 @@ var (
 	flagMin    = flag.Bool("sim.min", true, "minimise violations")
 	flagSUTLog = flag.Bool("sim.sutlog", false, "print SUT log messages")
 	flagDump   = flag.Bool("sim.dump", false, "include the scenario in every result")
+	flagKnown  = flag.String("sim.known", "", "comma separated oracle ids of known findings: reported, but not minimised")
+	flagMinFor = flag.Duration("sim.minfor", 40*time.Second, "wall clock limit for minimising one violation")
 )
 
 type RunResult struct {
@@ -398,7 +400,13 @@ func finishViolation(t *testing.T, sc *Scenario, res *RunResult) {
 	best := sc
 	tape := res.Tape
 	zeroFrom := -1
-	if *flagMin {
+	known := false
+	for _, k := range strings.Split(*flagKnown, ",") {
+		if k != "" && k == v.Oracle {
+			known = true
+		}
+	}
+	if *flagMin && !known {
 		best, tape, zeroFrom = minimise(t, sc, res.Tape, v)
 	}
 	// final re-execution with full log
